@@ -326,4 +326,6 @@ def verify(S):
 
 
 REPLAY = {"*": "replay_regroup"}
+BOUNDED = [(".labels_", "bounded stand-in: grouping + flux-ordered relabelling of regroup_dbscan executed symbolically for catalogues of "
+            "exactly 3 sources under all 5 label patterns (the set/where/sorted plumbing is not cut by an invariant)")]
 NATIVE_CHECKS = [{"func": "crosscheck", "payload": {}, "bounded": "random catalogues up to 60 sources"}]
